@@ -51,7 +51,7 @@ CHECKS = {
          "Accessory databases built from all catalog constructors, from one accessory to a 150-accessory bridge (responses of hundreds of chunks and frames); values at bounds, non-rounding floats, hostile strings, tlv8 payloads to 5000 bytes; id lists of every length 1..60 with unknown, write-only and repeated ids; oracle: values equal after JSON/chunking/encryption, every id answered once in order with value or status, every entry of a 207 has a status and none carries a value together with an error status. Freshness phase: one change (application or a second controller) lands inside a GET /accessories of a 40-bulb bridge; reads that start after the change returned must show it through both endpoints.",
          "trusted base: refctl HTTP/chunk/frame parsing, encoding/json; PUT to an unknown id must not be answered as if applied (weak reading)", "DESIGN.md §5 C09"),
  "C11": ("exploration", "runtime monitoring: permission invariants over every catalog constructor and all 8 permission subsets x formats, in-process update API and HTTP PUT path, EVENT fences",
-         "No pw => value unchanged and no callback for ~57 hostile values; no pr => no value stored or revealed in JSON, GET, /accessories, EVENT; no ev => subscription answered with a status and a fenced local change delivers no EVENT (ev spelled true, 1, 1.0, "true", "1", [true]: the odd spellings may be ignored or refused, never followed by an EVENT); positive controls for ev/pw/pr characteristics.",
+         "No pw => value unchanged and no callback for ~57 hostile values; no pr => no value stored or revealed in JSON, GET, /accessories, EVENT; no ev => subscription answered with a status and a fenced local change delivers no EVENT (ev spelled true, 1, 1.0, 'true', '1', [true]: the odd spellings may be ignored or refused, never followed by an EVENT); positive controls for ev/pw/pr characteristics.",
          "trusted base: refctl; permissions read literally from Perms, not through hc's helpers", "DESIGN.md §5 C11"),
  "C12": ("exploration", "runtime monitoring: type/range invariant checked after every update for hostile JSON-like value sequences over every catalog constructor and synthetic formats, in-process and through PUT",
          "88 hostile values (numbers of all magnitudes and signs, numeric and non-finite strings, bools, null, arrays, objects, repeated composites, Go-native ints/uints/float32) x local / remote / get-callback updates, pairs and random sequences; oracle after every update: Go type of the stored value matches the format, integer formats in range, within declared min/max, typed getter returns, attribute database encodes.",
